@@ -2,6 +2,7 @@ import XmppModel.Prelude.Hex
 import XmppModel.Model.Correlate
 import XmppModel.Model.CorrAttrs
 import XmppModel.Model.CorrWrap
+import XmppModel.Model.CorrExpect
 import XmppModel.Driver.C15
 import XmppModel.Driver.C18
 /-! Driver module for C06: replays an observed trace of a forced schedule on the LTS of
@@ -394,8 +395,45 @@ def parseWrap (api shape : String) : Option (CorrWrap.Api × CorrWrap.Shape) := 
     pure (a, ⟨typ, fr, to, pl⟩)
   | _ => none
 
+/-! `C06 exp <ops>`: the listener's table of expected streams (Model/CorrExpect.lean) -/
+def keyNum (c : Char) : Option Nat := if c = 'a' then some 0 else if c = 'b' then some 1 else none
+def keyChar (k : Nat) : String := if k = 0 then "a" else "b"
+
+def parseExpOp (t : String) : Option CorrExpect.Op :=
+  match t.toList with
+  | ['A'] => some .accept
+  | ['K'] => some .close
+  | ['O', k] => do let kk ← keyNum k; pure (.openReq kk)
+  | 'X' :: r => do let i ← numOf r; pure (.cancel i)
+  | 'E' :: r => do
+    let k ← r.getLast?
+    let kk ← keyNum k
+    let i ← numOf r.dropLast
+    pure (.expect i kk)
+  | _ => none
+
+def showExpEv : CorrExpect.Ev → String
+  | .conn i k => s!"{i}c{keyChar k}"
+  | .err i => s!"{i}e"
+  | .accConn k => s!"Ac{keyChar k}"
+  | .accErr => "Ae"
+
+def insertSorted (x : String) : List String → List String
+  | [] => [x]
+  | y :: ys => if x ≤ y then x :: y :: ys else y :: insertSorted x ys
+
+def showExpEvs (l : List CorrExpect.Ev) : String :=
+  if l.isEmpty then "-" else joinList ((l.map showExpEv).foldr insertSorted []) "+"
+
 def handle (args : List String) : Option String :=
   match args with
+  | ["exp", ops] => do
+    let os ← mapM? parseExpOp (splitList ops)
+    let evs := CorrExpect.run {} os
+    let fin := CorrExpect.final {} os
+    -- the harness closes the listener at the end: nothing may be left in the hand-off
+    let probe := if fin.pending.isNone then "live" else "stall"
+    pure s!"{joinList (evs.map showExpEvs)} probe={probe}"
   | ["wrap", api, shape] => do
     let (a, sh) ← parseWrap api shape
     let o := CorrWrap.call a sh
